@@ -201,6 +201,12 @@ pub fn binding(_cex: &Value) -> Result<String, String> {
                 if decode_verify(ser, token.as_bytes(), det, &key("keyA", Some("EdDSA"))).is_err() {
                   log.push(format!("{tag}: rejected although key.alg equals the header alg"));
                 }
+                // a pin is compared as a string: values outside the JWS algorithm registry, case / blank variants
+                for pin in ["ECDH-ES", "", "eddsa", "EdDSA ", "none", "Ed25519"] {
+                  if decode_verify(ser, token.as_bytes(), det, &key("keyA", Some(pin))).is_ok() {
+                    log.push(format!("{tag}: verified although key.alg = {pin:?} differs from the header alg"));
+                  }
+                }
                 // single-bit flips inside the signed strings
                 let bytes = token.as_bytes();
                 'flip: for (s, e) in ranges {
@@ -230,6 +236,50 @@ pub fn binding(_cex: &Value) -> Result<String, String> {
               }
               Err(e) => log.push(format!("{tag}: own token rejected: {e}")),
             }
+          }
+        }
+      }
+    }
+    // general serialization, hand-built: two signatures over one payload whose protected headers disagree on b64
+    // (each item's claims follow *its own* protected header), both orders
+    {
+      let p = "aGVsbG8"; // base64url("hello"); also a legal unencoded payload
+      let prot_enc = identity_jose::jwu::encode_b64(br#"{"alg":"EdDSA"}"#);
+      let prot_raw = identity_jose::jwu::encode_b64(br#"{"alg":"EdDSA","b64":false,"crit":["b64"]}"#);
+      let entry = |prot: &str| {
+        let sig = toy_sign(&k, format!("{prot}.{p}").as_bytes());
+        format!(r#"{{"protected":"{prot}","signature":"{}"}}"#, identity_jose::jwu::encode_b64(sig))
+      };
+      for order in [[&prot_enc, &prot_raw], [&prot_raw, &prot_enc]] {
+        let token = format!(r#"{{"payload":"{p}","signatures":[{},{}]}}"#, entry(order[0]), entry(order[1]));
+        let v = JwsVerifierFn::from(toy_verify);
+        match Decoder::new().decode_general_serialization(token.as_bytes(), None) {
+          Err(e) => log.push(format!("general token with mixed b64 does not decode: {e}")),
+          Ok(it) => {
+            for (n, item) in it.enumerate() {
+              let want: &[u8] = if std::ptr::eq(order[n], &prot_enc) { b"hello" } else { p.as_bytes() };
+              match item.and_then(|i| i.verify(&v, &k)) {
+                Ok(t) => {
+                  if t.claims.as_ref() != want {
+                    log.push(format!("general token, signature {n}: claims {:?} do not follow that signature's own b64", String::from_utf8_lossy(&t.claims)));
+                  }
+                }
+                Err(e) => log.push(format!("general token, signature {n} rejected: {e}")),
+              }
+            }
+          }
+        }
+        // unencoded first + payload that is not base64url: the encoded signature must fail to decode, not inherit raw claims
+        let p2 = "hello world!";
+        let e2 = |prot: &str| {
+          let sig = toy_sign(&k, format!("{prot}.{p2}").as_bytes());
+          format!(r#"{{"protected":"{prot}","signature":"{}"}}"#, identity_jose::jwu::encode_b64(sig))
+        };
+        let token = format!(r#"{{"payload":"{p2}","signatures":[{},{}]}}"#, e2(&prot_raw), e2(&prot_enc));
+        if let Ok(it) = Decoder::new().decode_general_serialization(token.as_bytes(), None) {
+          let items: Vec<_> = it.collect();
+          if items.len() == 2 && items[1].is_ok() {
+            log.push("general token: b64=true signature over a non-base64url payload accepted after a b64=false one".to_owned());
           }
         }
       }
